@@ -51,6 +51,7 @@ fn main() {
         "stream-trace" => stream::cmd_trace(rest),
         "stream-tamper" => stream::cmd_tamper(rest),
         "stream-session" => stream::cmd_session(rest),
+        "stream-vectors" => stream::cmd_vectors(rest),
         "aead-roundtrip" => aead::cmd_roundtrip(rest),
         "aead-tamper" => aead::cmd_tamper(rest),
         "aead-vectors" => aead::cmd_vectors(rest),
